@@ -253,6 +253,34 @@ def obligations(r, tier, seed):
     obs.append(Ob("C08/scaling-all-information", scaling, scope="shape-bounded", bound="one 3-vertex graph", solver="constrained", light=True,
                   funcs=["graphslam.graph.Graph._calc_chi2_gradient_hessian", BASE + ".calc_chi2_gradient_hessian"]))
 
+    # ---- scaling and the stopping rule: the documented rule looks at the RELATIVE decrease only, so a run on the graph with
+    #      all information scaled by c > 0 (chi2 values c*c_s) takes the same decisions.  The chi2 values of C12's obligation are
+    #      arbitrary non-negative reals, so "scaled by c" is a substitution instance of it: the same obligation is stated here
+    #      with the chi2 symbols explicitly multiplied by a symbolic c.
+    from gsv.contracts import c12
+    for max_iter in ((2, 3) if tier == "quick" else (2, 3, 4)):
+        def scale_rule(k, max_iter=max_iter):
+            c = k.pos("c")
+            ghost = common.Ghost()
+            g, es, vs = c12.make_graph(k, ghost, 2)
+            for e in es:
+                base = e._chi2
+                e._chi2 = (lambda base=base: c * base())
+            tol = k.nonneg("tol")
+            with common.counting_spsolve(k, ghost):
+                ret = g.optimize(tol=tol, max_iter=max_iter, verbose=False)
+            s_ = ghost.s
+            cs = [c * c12.chi2_sum_raw(es, i, ghost) for i in range(max_iter + 1)]
+            for i in range(1, s_):
+                k.holds(c12.neg(k, c12.must_rel(cs[i - 1], cs[i], tol)), "scaled run: comparison %d did not have to stop" % i)
+            if s_ < max_iter:
+                k.holds(c12.may_rel(cs[s_ - 1], cs[s_], tol), "scaled run: early stop only where the relative rule allows it")
+            else:
+                k.implies(ret.converged, c12.may_rel(cs[s_ - 1], cs[s_], tol), "scaled run: converged only where the relative rule allows it")
+                k.implies(c12.neg(k, ret.converged), c12.neg(k, c12.must_rel(cs[s_ - 1], cs[s_], tol)), "scaled run: not converged only where the rule does not demand it")
+        obs.append(Ob("C08/scaling/stopping-rule-is-relative/max_iter=%d" % max_iter, scale_rule, scope="shape-bounded", bound="max_iter=%d, 2 cut edges" % max_iter,
+                      solver="functional", light=True, funcs=["graphslam.graph.Graph.optimize"], max_paths=3000))
+
     def canary(k):
         r_ = k.r
         p, l, off, z = k.pose("SE3", "p"), k.pose("R3", "l"), k.pose("SE3", "off"), k.pose("R3", "z")
